@@ -1,9 +1,13 @@
 import MirVerif.Model.Bitmap
 import MirVerif.Model.Varr
 import MirVerif.Model.Dlist
+import MirVerif.Model.VarrAlloc
 /-! Line-protocol driver for property C19, bitmap / VARR / DLIST part (`mirdrv_c19b`).
 One command per input line, one output line per command; see harness/c19_sets.c for the same
-protocol on the real headers.  `variant` prints which change-flag variant the model follows. -/
+protocol on the real headers.  `variant` prints which change-flag variant the model follows.
+After `E <elsize>` (harness/c19_seq_alloc.c) every accepted VARR command is also run through the C17
+allocator-event model `Model/VarrAlloc.lean` and the predicted `MIR_malloc`/`MIR_realloc` calls and the
+capacity are appended as `pol:` tokens. -/
 open MirVerif
 
 structure DS where
@@ -133,15 +137,57 @@ def step (st : DS) (toks : List String) : DS × String :=
     else (st, "err")
   | [] => (st, "err")
 
-partial def loop (h : IO.FS.Stream) (out : IO.FS.Stream) (st : DS) : IO Unit := do
+/-- allocator-event shadow of the array (C17 model); `esz = 0`: off -/
+structure Shadow where
+  esz : Nat := 0
+  va : VarrAlloc.Varr := default
+
+def evTok : Alloc.Ev → String
+  | .malloc sz _ => s!" pol:ev:m{sz}"
+  | .realloc _ o n _ => s!" pol:ev:r{o}:{n}"
+  | _ => ""
+
+def shadowStep (sh : Shadow) (toks : List String) (out : String) : Shadow × String :=
+  if sh.esz = 0 then (sh, out) else
+  if out.startsWith "rej" || out.startsWith "err" then (sh, out) else
+  let fin (r : VarrAlloc.Varr × List Alloc.Ev) : Shadow × String :=
+    ({ sh with va := r.1 }, out ++ s!" pol:c{r.1.size}" ++ String.join (r.2.map evTok))
+  match toks with
+  | ["R", _, vsz, _] => fin (VarrAlloc.create sh.esz (vsz.toNat?.getD 0) 1 2)
+  | "vdump" :: _ => (sh, out)
+  | cmd :: args =>
+    if !cmd.startsWith "v" then (sh, out) else
+    let a := args.map (fun x => (x.toInt?.getD 0).toNat)
+    let op : Option VarrAlloc.VOp :=
+      match cmd, a with
+      | "vpush", [_] => some (.push 2)
+      | "vpusharr", xs => some (.pushArr xs.length 2)
+      | "vpop", [] => some .pop
+      | "vtrunc", [n] => some (.trunc n)
+      | "vexpand", [n] => some (.expand n 2)
+      | "vtailor", [n] => some (.tailor n 2)
+      | _, _ => none
+    match op with
+    | some o => fin (o.apply sh.va)
+    | none => fin (sh.va, [])
+  | [] => (sh, out)
+
+partial def loop (h : IO.FS.Stream) (out : IO.FS.Stream) (st : DS) (sh : Shadow) : IO Unit := do
   let line ← h.getLine
   if line.isEmpty then return ()
   let toks := (line.trimAscii.toString.splitOn " ").filter (· ≠ "")
-  let (st', o) := step st toks
-  out.putStrLn o
-  loop h out st'
+  match toks with
+  | ["E", k] =>
+    match k.toNat? with
+    | some n => out.putStrLn "ok"; loop h out st { esz := n }
+    | none => out.putStrLn "err"; loop h out st sh
+  | _ =>
+    let (st', o) := step st toks
+    let (sh', o') := shadowStep sh toks o
+    out.putStrLn o'
+    loop h out st' sh'
 
 def main (_args : List String) : IO Unit := do
   let out ← IO.getStdout
-  loop (← IO.getStdin) out (initDS 4 0 8)
+  loop (← IO.getStdin) out (initDS 4 0 8) {}
   out.flush
